@@ -188,11 +188,12 @@ type vC18Ev struct {
 
 func (g *vC18Gen) read() vC18Ev {
 	r := g.r
+	// every peer of the pool (1..6) plus one that is never configured, every selector of the pool plus an unknown one
 	ev := vC18Ev{kind: "read"}
-	for _, p := range r.Perm(7)[:r.Range(1, 4)] {
+	for _, p := range r.Perm(7) {
 		ev.peers = append(ev.peers, uint64(p+1))
 	}
-	for _, s := range r.Perm(8)[:r.Range(1, 4)] {
+	for _, s := range r.Perm(8) {
 		ev.sels = append(ev.sels, uint64(s+1))
 	}
 	return ev
@@ -227,6 +228,84 @@ func (g *vC18Gen) pollPaged(total int) vC18Ev {
 	return ev
 }
 
+// a configuration that differs from prev in exactly one aspect
+func (g *vC18Gen) variant(prev []ChainConfigInfo, aspect string) []ChainConfigInfo {
+	r := g.r
+	out := make([]ChainConfigInfo, len(prev))
+	for i, e := range prev {
+		e.ChainConfig.Readers = append([]libocrtypes.PeerID{}, e.ChainConfig.Readers...)
+		out[i] = e
+	}
+	if len(out) == 0 {
+		return []ChainConfigInfo{g.entry(1, true)}
+	}
+	k := r.Intn(len(out))
+	switch aspect {
+	case "readers": // node rotation on one chain: same selectors, same f
+		old := out[k].ChainConfig.Readers
+		var nw []libocrtypes.PeerID
+		switch {
+		case len(old) > 0 && r.Chance(1, 3): // one reader leaves
+			nw = old[1:]
+		case len(old) > 0 && r.Chance(1, 2): // one reader replaced by a peer not yet reading this chain
+			nw = append([]libocrtypes.PeerID{}, old[1:]...)
+			fallthrough
+		default: // one reader joins
+			if nw == nil {
+				nw = append([]libocrtypes.PeerID{}, old...)
+			}
+			for c := 1; c <= 6; c++ {
+				has := false
+				for _, p := range old {
+					has = has || p == vC18Peer(c)
+				}
+				if !has {
+					nw = append(nw, vC18Peer(c))
+					break
+				}
+			}
+		}
+		out[k].ChainConfig.Readers = nw
+	case "f":
+		out[k].ChainConfig.FChain = out[k].ChainConfig.FChain + uint8(r.Range(1, 3))
+	case "chainset":
+		if len(out) > 1 && r.Bool() {
+			out = append(out[:k], out[k+1:]...)
+		} else {
+			used := map[uint64]bool{}
+			for _, e := range out {
+				used[uint64(e.ChainSelector)] = true
+			}
+			for c := uint64(1); c <= 7; c++ {
+				if !used[c] {
+					out = append(out, g.entry(c, true))
+					break
+				}
+			}
+		}
+	case "order":
+		perm := r.Perm(len(out))
+		sh := make([]ChainConfigInfo, len(out))
+		for i, j := range perm {
+			sh[i] = out[j]
+		}
+		out = sh
+	case "config": // only the opaque per-chain config bytes
+		out[k].ChainConfig.Config = g.blobs[(r.Intn(2)+1+indexOfBlob(g.blobs, out[k].ChainConfig.Config))%3]
+	default: // identical
+	}
+	return out
+}
+
+func indexOfBlob(blobs [][]byte, b []byte) int {
+	for i := 0; i < 3; i++ {
+		if string(blobs[i]) == string(b) {
+			return i
+		}
+	}
+	return 0
+}
+
 func (g *vC18Gen) history(cls string) []vC18Ev {
 	r := g.r
 	var evs []vC18Ev
@@ -239,6 +318,22 @@ func (g *vC18Gen) history(cls string) []vC18Ev {
 	start := vC18Ev{kind: "start"}
 	closeEv := vC18Ev{kind: "close"}
 	switch cls {
+	case "delta":
+		// successive SUCCESSFUL polls that differ in exactly one aspect, every view read after every poll
+		evs = append(evs, start)
+		var cur []ChainConfigInfo
+		for _, c := range r.Perm(7)[:r.Range(2, 5)] { // distinct selectors, all decodable
+			cur = append(cur, g.entry(uint64(c+1), true))
+		}
+		evs = append(evs, vC18Ev{kind: "poll", pages: []vC18Answer{{infos: cur}}}, g.read())
+		aspects := []string{"readers", "readers", "readers", "f", "chainset", "order", "config", "same"}
+		for k := r.Range(3, 7); k > 0; k-- {
+			cur = g.variant(cur, vPick(r, aspects))
+			evs = append(evs, vC18Ev{kind: "poll", pages: []vC18Answer{{infos: cur}}}, g.read())
+			if r.Chance(1, 6) {
+				evs = append(evs, g.pollFail(), g.read())
+			}
+		}
 	case "mixed":
 		add(start)
 		for k := r.Range(3, 14); k > 0; k-- {
@@ -554,7 +649,7 @@ func TestVerif_C18_home_seq(t *testing.T) {
 	sink := vOpenSink("C18_home_seq")
 	defer sink.Close()
 	g := vC18NewGen(r)
-	classes := []string{"mixed", "mixed", "health", "health", "paging", "lifecycle", "lifecycle"}
+	classes := []string{"mixed", "delta", "health", "delta", "paging", "lifecycle", "delta", "mixed", "health", "lifecycle"}
 	for i := 0; i < n; i++ {
 		cls := classes[i%len(classes)]
 		evs := g.history(cls)
